@@ -80,7 +80,12 @@ impl AllowlistRule {
         if let Some(idx) = self.deny_patterns.matches(file_name).into_iter().next() {
             return Some(format!("pattern #{idx}"));
         }
-        if let Some(idx) = self.deny_patterns.matches(file_path).into_iter().next() {
+        if let Some(idx) = self
+            .deny_patterns
+            .matches(normalize_for_matching(file_path))
+            .into_iter()
+            .next()
+        {
             return Some(format!("pattern #{idx}"));
         }
 
